@@ -13,7 +13,7 @@
    layout a separating constraint exists for every sibling pair in some dimension (the cluster analogue of
    nonoverlap_step_established; its node version is proved). *)
 From Adapt Require Import Num.Qaux Cola.CompoundCsModel Cola.CompoundCs Cola.NonOverlapModel Cola.NonOverlap
-  Cola.ContainmentModel Cola.Containment.
+  Cola.ContainmentModel Cola.Containment Cola.VarLayoutModel Cola.VarLayout.
 Local Open Scope Q_scope.
 
 Theorem nonoverlap_step_preserved d nv offs prs rects cs v' :
@@ -95,3 +95,21 @@ Print Assumptions C08_checker_correct.
 Theorem C08_box_checker_correct t rects A B : boxes_sepb t rects A B = true <-> boxes_sep t rects A B.
 Proof. exact (boxes_sepb_correct t rects A B). Qed.
 Print Assumptions C08_box_checker_correct.
+
+(* Variable index layout (Cola/VarLayoutModel.v, tied to colafd.cpp by the `vars` correspondence of checks/c08.py): the cluster
+   variable numbers recorded when the ClusterContainmentConstraints are created index the variable list that
+   setupVarsAndConstraints builds before every projection of run() - in both dimensions, with any user compound constraints:
+   the run-time list extends the stored one, and the id stored for cluster c (id+1) is the tag of c's min-side (max-side)
+   boundary variable there.  So the containment constraints of containment_sound / siblings_disjoint really bind the members to
+   their own cluster's boundary variables when user constraints that create variables are combined with a hierarchy. *)
+Theorem C08_setup_extends_stored d n root ccs :
+  setup_layout d n root ccs = stored_layout n root ++ [TMin (ct_id root); TMax (ct_id root)] ++ cc_tags d ccs.
+Proof. exact (setup_extends_stored_thm d n root ccs). Qed.
+Print Assumptions C08_setup_extends_stored.
+
+Theorem C08_stored_id_points_at_cluster d n root ccs c :
+  In (TMin c) (stored_layout n root) ->
+  tag_at (setup_layout d n root ccs) (stored_id n root c) = Some (TMin c) /\
+  tag_at (setup_layout d n root ccs) (S (stored_id n root c)) = Some (TMax c).
+Proof. exact (stored_id_points_at_cluster_thm d n root ccs c). Qed.
+Print Assumptions C08_stored_id_points_at_cluster.
